@@ -75,7 +75,9 @@ struct Problem
     ld sigma = 0;         // as the solver sees it (rounded to Real)
     ld norm_shift2 = 0;   // ||A - sigma B||_2  (||K - sigma K_G||_2)
     ld kappaF = 1;        // condition number of the matrix that is factorized: P, or the shifted matrix
+    ld rho_nu = 0;        // largest |nu_i| of the iteration operator (reference spectrum): ||OP|| in the inner product of the iteration
     ld inf_ratio = 1;     // buckling: min_i |mu_i * sigma| ; nu rounds to 1 (lambda = inf) when this is at rounding level
+    MatL OPref;           // the iteration operator in long double (classification of start vectors only)
     std::string aname, pname;
 };
 
@@ -256,50 +258,73 @@ static void check_pairs(const Handle& eigs, Index ret, const Problem& pb, const 
             gsum = (pb.normP + std::abs(lam) * pb.normA) * nx;
         }
         // tol * C_mode: the documented test |est| ||f||_W < tol max(eps^(2/3), |nu|) pushed through the back-transformation
-        ld cmode;
+        // back-transformation: pencil residual = tfac * M * r with r = OP x - nu x the residual of the iteration, M = L, B or the shifted matrix
+        ld tfac, nu, mnorm;
         switch (pb.mode)
         {
             case M_CHOL:
             case M_REGINV:
-                // A x - theta B x = L r (r = OP y - theta y, ||r||_2 < thresh)  resp.  = B r (||r||_B < thresh)
-                cmode = std::sqrt(pb.pmax) * std::max(eps23, std::abs(lam));
+                // A x - theta B x = L r (||r||_2 < thresh)  resp.  = B r (||r||_B < thresh): ||.||_2 <= sqrt(lambda_max(B)) thresh
+                nu = lam;
+                tfac = 1;
+                mnorm = std::sqrt(pb.pmax);
                 break;
             case M_SHIFTINV:
-            {
                 // nu = 1/(lambda - sigma);  A x - lambda B x = -(A - sigma B) r / nu,  ||r||_2 <= ||r||_B / sqrt(lambda_min(B))
-                ld nu = 1 / (lam - pb.sigma);
-                cmode = std::abs(lam - pb.sigma) * pb.norm_shift2 / std::sqrt(pb.pmin) * std::max(eps23, std::abs(nu));
+                nu = 1 / (lam - pb.sigma);
+                tfac = std::abs(lam - pb.sigma);
+                mnorm = pb.norm_shift2 / std::sqrt(pb.pmin);
                 break;
-            }
             case M_BUCKLING:
-            {
                 // nu = lambda/(lambda - sigma);  K x - lambda K_G x = -((lambda - sigma)/sigma) (K - sigma K_G) r,  (lambda - sigma)/sigma = lambda/(sigma nu)
-                ld nu = lam / (lam - pb.sigma);
-                cmode = std::abs((lam - pb.sigma) / pb.sigma) * pb.norm_shift2 / std::sqrt(pb.pmin) * std::max(eps23, std::abs(nu));
+                nu = lam / (lam - pb.sigma);
+                tfac = std::abs((lam - pb.sigma) / pb.sigma);
+                mnorm = pb.norm_shift2 / std::sqrt(pb.pmin);
                 break;
-            }
             default:
-            {
                 // nu = (lambda + sigma)/(lambda - sigma);  A x - lambda B x = -((lambda - sigma)/(2 sigma)) (A - sigma B) r,  (lambda - sigma)/(2 sigma) = (lambda + sigma)/(2 sigma nu)
-                ld nu = (lam + pb.sigma) / (lam - pb.sigma);
-                cmode = std::abs((lam - pb.sigma) / (2 * pb.sigma)) * pb.norm_shift2 / std::sqrt(pb.pmin) * std::max(eps23, std::abs(nu));
+                nu = (lam + pb.sigma) / (lam - pb.sigma);
+                tfac = std::abs((lam - pb.sigma) / (2 * pb.sigma));
+                mnorm = pb.norm_shift2 / std::sqrt(pb.pmin);
                 break;
-            }
         }
+        const ld cmode = tfac * mnorm * std::max(eps23, std::abs(nu));
         const ld tolpart = a.tol * cmode;
-        const ld roundpart = CTOL * (ld) n * EPS * rfac * pb.kappaF * gsum;
+        // rounding scale: the user's pencil, plus the matrix the operator works with pushed through the same back-transformation.
+        // Cholesky: the pencil itself. Regular inverse: y = B^-1 (A v) is accurate relative to ||y|| ~ rho ||v||, rho = max |lambda_i|, for the
+        // Lanczos vectors v (not relative to |lambda| ||x||), which leaves B * error ~ rho ||B||. Shift modes: the solve with A - sigma B has a
+        // backward error relative to ||A - sigma B||, which is not bounded by ||A|| + |lambda| ||B|| when |sigma| >> |lambda| (or |lambda| >> |sigma|
+        // in the buckling and Cayley back-transformations): tfac |nu| ||A - sigma B|| is its image in the pencil residual.
+        ld gmode;
+        if (pb.mode == M_CHOL)
+            gmode = gsum;
+        else if (pb.mode == M_REGINV)
+            gmode = (pb.normA + std::max(std::abs(lam), pb.rho_nu) * pb.normP) * nx;
+        else
+            gmode = gsum + tfac * std::abs(nu) * pb.norm_shift2 * nx;
+        const ld roundpart = CTOL * (ld) n * EPS * rfac * pb.kappaF * gmode;
         const ld bound = tolpart + roundpart;
+        if (std::getenv("C03_CALIB"))
+        {
+            // calibration aid (never set by props_d/c03.py): records (residual - tol*C_mode) in units of the asserted rounding scale and of the
+            // plain scale n eps (1+r) kappa_F (||A|| + |lambda| ||B||) ||x|| for ALL pairs, asserts nothing
+            ld over = std::max((ld) 0, res - tolpart);
+            vf::report().stat("CALIB " + mode + ": (residual - tol*C_mode)/(n eps (1+r) kappa_F (|A|+|lambda||B|)|x|)", (double) (over / ((ld) n * EPS * rfac * pb.kappaF * gsum)));
+            vf::report().stat("CALIB " + mode + ": (residual - tol*C_mode)/(n eps (1+r) kappa_F G_mode)", (double) (over / (roundpart / CTOL)));
+            if (over > roundpart && std::getenv("VF_DEBUG"))
+                std::fprintf(stderr, "CALIB-RES %s %.3g lam %.3Lg sigma %.3Lg rho %.3Lg nu %.3Lg | %s\n", mode.c_str(), (double) (over / (roundpart / CTOL)), lam, pb.sigma, pb.rho_nu, nu, c.desc.c_str());
+            continue;
+        }
         VF_CHECK(res <= bound, "residual",
                  when << ": " << (buck ? "||K x - lambda K_G x||" : "||A x - lambda B x||") << " = " << vf::num(res) << " > " << vf::num(bound) << " = tol*C_mode " << vf::num(tolpart) << " + rounding "
-                      << vf::num(roundpart) << " for pair " << i << " lambda=" << vf::num(lam) << " (mode " << mode << ", tol=" << vf::num(a.tol) << ", (|A|+|lambda||B|)|x|=" << vf::num(gsum)
+                      << vf::num(roundpart) << " for pair " << i << " lambda=" << vf::num(lam) << " (mode " << mode << ", tol=" << vf::num(a.tol) << ", (|A|+|lambda||B|)|x|=" << vf::num(gsum) << ", rounding scale=" << vf::num(gmode)
                       << ", kappa_F=" << vf::num(pb.kappaF) << ", kappa(P)=" << vf::num(pb.kappaP) << ", info=" << vf::info_name(eigs.info()) << ", restarts=" << restarts << ")");
         vf::report().stat(mode + ": residual/bound (passing pairs)", (double) (res / bound));
-        if (tolpart < roundpart)
-            vf::report().stat(mode + ": residual/(n eps (1+r) kappa_F (|A|+|lambda||B|)|x|) when tol*C_mode is below rounding (passing pairs)", (double) (res / (roundpart / CTOL)));
-        else
+        vf::report().stat(mode + ": (residual - tol*C_mode)/(n eps (1+r) kappa_F G_mode) (passing pairs)", (double) (std::max((ld) 0, res - tolpart) / (roundpart / CTOL)));
+        if (tolpart >= roundpart)
             vf::report().stat(mode + ": residual/(tol*C_mode) when tol*C_mode dominates (passing pairs)", (double) (res / tolpart));
         if (std::getenv("VF_DEBUG") && res / bound > 0.25)
-            std::fprintf(stderr, "HIGH res/bound %.3g tolpart %.3Lg roundpart %.3Lg | %s\n", (double) (res / bound), tolpart, roundpart, c.desc.c_str());
+            std::fprintf(stderr, "HIGH res/bound %.3g tolpart %.3Lg roundpart %.3Lg nullspace_ratio %.3g opv_abs %.3g | %s\n", (double) (res / bound), tolpart, roundpart, c.f("start_nullspace_ratio", 1), c.f("start_opv_abs", 1), c.desc.c_str());
         // the bound constrains the pair only if it is well below the trivial size of the residual
         if (bound <= (ld) 1e-3 * gsum)
             c.nontrivial = true;
@@ -310,10 +335,19 @@ static void check_pairs(const Handle& eigs, Index ret, const Problem& pb, const 
     MatL G = X.transpose() * pb.P * X - MatL::Identity(ret, ret);
     ld orth = vf::maxabs(G);
     ld obound = CTOL * (ld) n * EPS * rfac * std::max(pb.kappaP, pb.kappaF);
+    if (std::getenv("C03_CALIB"))
+    {
+        vf::report().stat("CALIB " + mode + " orthonormality/(n eps (1+r) max(kappa(P),kappa_F))", (double) (orth / (obound / CTOL)));
+        if (orth > obound && std::getenv("VF_DEBUG"))
+            std::fprintf(stderr, "CALIB-ORTH %s %.3g | %s\n", mode.c_str(), (double) (orth / (obound / CTOL)), c.desc.c_str());
+        return;
+    }
     VF_CHECK(orth <= obound, "orthonormality",
              when << ": max|X^T " << (buck ? "K" : "B") << " X - I| = " << vf::num(orth) << " > " << vf::num(obound) << " (mode " << mode << ", " << ret << " vectors, kappa(P)=" << vf::num(pb.kappaP)
                   << ", kappa_F=" << vf::num(pb.kappaF) << ", restarts=" << restarts << ", info=" << vf::info_name(eigs.info()) << ")");
     vf::report().stat(mode + ": orthonormality/(n eps (1+r) max(kappa(P),kappa_F))", (double) (orth / (obound / CTOL)));
+    if (std::getenv("VF_DEBUG") && orth / obound > 0.1)
+        std::fprintf(stderr, "HIGH orth/bound %.3g nullspace_ratio %.3g opv_abs %.3g | %s\n", (double) (orth / obound), c.f("start_nullspace_ratio", 1), c.f("start_opv_abs", 1), c.desc.c_str());
     if (obound > (ld) 1e-3)
         c.cls("orthonormality_bound_vacuous");
 }
@@ -370,6 +404,18 @@ static void drive(const Handle& eigs, vf::Draw& d, vf::Case& c, const Problem& p
         }
         vl /= vl.cwiseAbs().maxCoeff();
         v = vl.template cast<Real>();
+        {
+            // is the start vector numerically in the null space of the iteration operator? (||OP v0|| at rounding level relative to ||OP|| ||v0||)
+            VecL vr = v.template cast<ld>();
+            ld ratio = (pb.OPref * vr).norm() / (vf::fro_scaled(pb.OPref) * vr.norm());
+            if (!c.feat.count("start_nullspace_ratio") || (double) ratio < c.feat["start_nullspace_ratio"])
+                c.feat["start_nullspace_ratio"] = (double) ratio;
+            ld opv = (pb.OPref * vr).norm();  // v0 has max |entry| = 1
+            if (!c.feat.count("start_opv_abs") || (double) opv < c.feat["start_opv_abs"])
+                c.feat["start_opv_abs"] = (double) opv;
+        }
+        if (std::getenv("C03_DUMP"))
+            std::cerr << "start vector (" << name << ") = " << v.transpose() << "\n";
         return name;
     };
     int nprefix = (int) d.range("history_len", 0, 2);
@@ -837,6 +883,7 @@ static void run_case(vf::Draw& d, vf::Case& c)
         pb.refX = ges.eigenvectors() / std::sqrt(pb.normP);
     }
     pb.kappaF = pb.kappaP;
+    pb.rho_nu = pb.ref.cwiseAbs().maxCoeff();  // Cholesky / regular inverse: nu = lambda
     if (pb.kappaP >= (ld) 1e6)
         c.cls("kappa(P)>=1e6");
     if (shift_family)
@@ -869,6 +916,13 @@ static void run_case(vf::Draw& d, vf::Case& c)
         }
         pb.norm_shift2 = smax;
         pb.kappaF = smax / (smin - delta);
+        pb.rho_nu = 0;
+        for (Index i = 0; i < n; i++)
+        {
+            // buckling: ref holds mu = 1/lambda, nu = lambda/(lambda - sigma) = 1/(1 - sigma mu)
+            ld nu_i = (pb.mode == M_SHIFTINV) ? 1 / (pb.ref[i] - pb.sigma) : (buck ? 1 / (1 - pb.sigma * pb.ref[i]) : (pb.ref[i] + pb.sigma) / (pb.ref[i] - pb.sigma));
+            pb.rho_nu = std::max(pb.rho_nu, std::abs(nu_i));
+        }
         if (buck)
         {
             pb.inf_ratio = std::numeric_limits<ld>::infinity();
@@ -880,6 +934,39 @@ static void run_case(vf::Draw& d, vf::Case& c)
             c.cls("kappa_F>=1e6");
     }
     c.add_desc(os.str());
+    {
+        Eigen::FullPivLU<MatL> lu;
+        switch (pb.mode)
+        {
+            case M_CHOL:
+            {
+                MatL T = pb.Lref.triangularView<Eigen::Lower>().solve(pb.A);  // L^-1 A
+                pb.OPref = pb.Lref.triangularView<Eigen::Lower>().solve(T.transpose()).transpose();  // (L^-1 (L^-1 A)^T)^T = L^-1 A L^-T
+                break;
+            }
+            case M_REGINV:
+                lu.compute(pb.P);
+                pb.OPref = lu.solve(pb.A);
+                break;
+            case M_SHIFTINV:
+                lu.compute(pb.A - pb.sigma * pb.P);
+                pb.OPref = lu.solve(pb.P);
+                break;
+            case M_BUCKLING:
+                lu.compute(pb.P - pb.sigma * pb.A);
+                pb.OPref = lu.solve(pb.P);
+                break;
+            default:
+                lu.compute(pb.A - pb.sigma * pb.P);
+                pb.OPref = lu.solve(pb.A + pb.sigma * pb.P);
+                break;
+        }
+    }
+    if (std::getenv("C03_DUMP"))
+    {
+        std::cerr.precision(21);
+        std::cerr << "A=\n" << pb.A << "\nP=\n" << pb.P << "\nsigma=" << pb.sigma << "\nref=" << pb.ref.transpose() << "\n";
+    }
     try
     {
         inst->fn(run);
@@ -904,9 +991,17 @@ static void run_case(vf::Draw& d, vf::Case& c)
     }
 }
 
-// Known-finding signatures (KNOWN_FINDINGS.txt): none at present.
-static std::string match(const vf::Violation&, const vf::Case&)
+// Known-finding signatures (KNOWN_FINDINGS.txt).
+static std::string match(const vf::Violation& v, const vf::Case& c)
 {
+    if (v.kind == "residual" || v.kind == "orthonormality")
+    {
+        // KF-C03-FLOAT (same root cause as KF-C01-FLOAT / KF-C07-FLOAT): single precision, start vector numerically in the null space of the
+        // iteration operator: OP*v0 consists of rounding noise of magnitude ~1e-21, the square of which underflows in the unscaled norm(), so the
+        // first basis vector is not normalised
+        if (std::is_same<Real, float>::value && c.feat.count("start_nullspace_ratio") && c.f("start_nullspace_ratio") < 1e-12)
+            return "float_norm_underflow";
+    }
     return "";
 }
 
